@@ -147,19 +147,103 @@ def make_sheet(body):
             'globals': [('gv', ('select', E(fn('count', path(DOS, step('child', WILD), start='root')))))]}
 
 
+def structure_programs(tier):
+    """whole stylesheets: where global variables/params are declared (main module, one import, two sibling imports, an import chain)
+    x how the rules for a and b declare a parameter x how the rule for r passes parameters on (apply-templates with and without
+    with-param, sorted, through built-in rules, call-template inside for-each, call followed by apply)"""
+    P_R = path(step('child', name('r')))
+    VP, VQ = ('var', 'p'), ('var', 'q')
+    ROOT = ('path', 'root', [])
+
+    def pat(ast, prio=0.0):
+        return (ast, X.to_text(ast), [(ast, prio)])
+
+    def g(n, v, kind='variable'):
+        return (n, ('select', E(s(v))), kind)
+    GL = [
+        ('no-global', [], []),
+        ('main-variable', [g('p', 'gm')], []),
+        ('main-param', [g('p', 'gm', 'param')], []),
+        ('one-import', [], [dict(href='i1.xsl', globals=[g('p', 'g1')])]),
+        ('two-sibling-imports', [], [dict(href='i1.xsl', globals=[g('p', 'g1')]), dict(href='i2.xsl', globals=[g('p', 'g2')])]),
+        ('two-sibling-imports-reversed-names', [], [dict(href='i1.xsl', globals=[g('p', 'g1'), g('q', 'q1')]), dict(href='i2.xsl', globals=[g('q', 'q2')])]),
+        ('import-chain', [], [dict(href='i1.xsl', globals=[g('p', 'g1')], imports=[dict(href='i3.xsl', globals=[g('p', 'g3'), g('q', 'q3')])])]),
+        ('main-over-import', [g('p', 'gm')], [dict(href='i1.xsl', globals=[g('p', 'g1'), g('q', 'q1')])]),
+    ]
+    A_FORMS = [('a-no-param', []), ('a-param-default', [('p', ('select', E(s('da'))))]), ('a-param-no-default', [('p', None)])]
+    B_FORMS = [('b-no-param', [], False), ('b-param-default', [('p', ('select', E(s('db'))))], False), ('b-param-in-import', [('p', ('select', E(s('dbi'))))], True)]
+    WP = [('p', E(s('W')))]
+    APPLY = [
+        ('apply-with-param', [('apply', E(P_STAR), '', [], WP)]),
+        ('apply-plain', [('apply', E(P_STAR), '', [], [])]),
+        ('apply-sorted-with-param', [('apply', E(P_DESC), '', [(E(fn('name')), 'text', True)], WP)]),
+        ('apply-two-params', [('apply', E(P_STAR), '', [], WP + [('zz', E(s('Z')))])]),
+        ('foreach-call-with-param', [('foreach', E(P_STAR), [], [('call', 't', [('p', E(fn('name')))])])]),
+        ('foreach-call-plain', [('foreach', E(P_STAR), [], [('call', 't', [])])]),
+        ('call-then-apply', [('call', 't', WP), ('apply', E(P_STAR), '', [], [])]),
+        ('apply-with-param-then-apply-plain', [('apply', E(P_STAR), '', [], WP), ('text', '|'), ('apply', E(P_STAR), '', [], [])]),
+    ]
+    for gn, gmain, gimports in GL:
+        names = set()
+
+        def collect(ms):
+            for m in ms:
+                for x in m.get('globals', []):
+                    names.add(x[0])
+                collect(m.get('imports', []))
+        collect(gimports)
+        names |= set(x[0] for x in gmain)
+        show_p = [('valueof', E(VP))] if 'p' in names else [('text', 'np')]
+        show_q = [('valueof', E(VQ))] if 'q' in names else []
+        for an, aparams in A_FORMS:
+            for bn, bparams, b_in_import in B_FORMS:
+                for fn_, fbody in APPLY:
+                    tmpl = [
+                        dict(match=(ROOT, '/', [(ROOT, 0.5)]), body=[('lre', 'out', [], [('apply', E(P_R), '', [], [])])]),
+                        dict(match=pat(P_R), body=fbody),
+                        dict(match=pat(P_A), params=aparams, body=[('lre', 'A', [], ([('valueof', E(VP))] if aparams else show_p) + show_q + [('apply', None, '', [], [])])]),
+                        dict(name='t', params=[('p', ('select', E(s('dt'))))], body=[('lre', 't', [], [('valueof', E(VP))] + show_q)]),
+                    ]
+                    tb = dict(match=pat(P_B), params=bparams, body=[('lre', 'B', [], ([('valueof', E(VP))] if bparams else show_p) + [('apply', None, '', [], [])])])
+                    imports = [dict(m) for m in gimports]
+                    if b_in_import:
+                        if imports:
+                            imports[0] = dict(imports[0], templates=[tb])
+                        else:
+                            imports = [dict(href='i9.xsl', templates=[tb])]
+                    else:
+                        tmpl.append(tb)
+                    yield ('structure|%s|%s|%s|%s' % (gn, an, bn, fn_), {'templates': tmpl, 'globals': gmain, 'imports': imports})
+
+
+def structure_docs():
+    El = R.E
+    return [
+        R.make_doc([El('r', None, [El('a'), El('b')])], name='S1'),
+        R.make_doc([El('r', None, [El('b'), El('a')])], name='S2'),
+        R.make_doc([El('r', None, [El('a'), El('b'), El('a'), El('b')])], name='S3'),
+        R.make_doc([El('r', None, [El('w', None, [El('a'), El('b')]), El('b'), El('a')])], name='S4'),
+        R.make_doc([El('r', None, [El('a', None, [El('b')]), El('b', None, [El('a')])])], name='S5'),
+        R.make_doc([El('r', None, ['t', El('b', None, ['u']), El('a', None, [El('a')])])], name='S6'),
+    ]
+
+
 def shard_main(shard, nshards, tier):
     w = vlib.Worker('xdrv', stderr_path=os.path.join(vlib.BUILD, 'tmp', 'c01.%d.err' % shard))
     D = docs(tier)
     counts = {'evaluations': 0, 'programs': 0, 'nontrivial': 0, 'reference_errors': 0}
     viols = []
     samples = []
-    for idx, (desc, body) in enumerate(programs(tier)):
+    SD = structure_docs()
+    work = itertools.chain(((desc, make_sheet(body), D) for desc, body in programs(tier)),
+                           ((desc, sheet, SD) for desc, sheet in structure_programs(tier)))
+    for idx, (desc, sheet, docs_) in enumerate(work):
         if idx % nshards != shard:
             continue
         counts['programs'] += 1
-        sheet = make_sheet(body)
         xsl = S.sheet_text(sheet)
-        for d in D:
+        res_args = ['r:%s=%s' % kv for kv in S.sheet_resources(sheet).items()]
+        for d in docs_:
             try:
                 ref = S.Interp(sheet, d).transform()
                 exp = R.canon(ref)
@@ -167,7 +251,7 @@ def shard_main(shard, nshards, tier):
                 counts['reference_errors'] += 1
                 continue
             try:
-                r = w.request('tr', xsl, d.to_xml())
+                r = w.request('tr', xsl, d.to_xml(), *res_args)
             except vlib.WorkerDied as wd:
                 viols.append(('fatal|%s' % desc, {'xsl': xsl, 'xml': d.to_xml(), 'stderr': wd.stderr_tail[-1500:]}))
                 break
@@ -215,7 +299,12 @@ def main():
                 'quick, all in thorough) and sequences leaf;leaf (a third in quick, all in thorough), inside a stylesheet with fixed template '
                 'rules (modes, priorities, params, a named template, a key, a global variable, built-in rules) x 8+ documents. Oracle: the '
                 'serialised result re-parsed (expat) must equal the tree produced by the reference interpreter lib/refxslt.py on the same '
-                'AST: names, attributes as sets, merged text, comments, PIs, order. Non-trivial = the reference result has content.',
+                'AST: names, attributes as sets, merged text, comments, PIs, order. Non-trivial = the reference result has content. Family '
+                '"structure": whole stylesheets = 8 placements of a global variable/param p (none, main module as variable or param, one import, '
+                'two sibling imports, an import chain, main over import; a second global q) x 3 parameter declarations of the rule for a x 3 of '
+                'the rule for b (none, with default, declared only in an imported module) x 8 ways the rule for r passes parameters on '
+                '(apply-templates with/without with-param, sorted, two params, call-template inside for-each, call then apply, apply with then '
+                'without) x 6 documents (a before b, b before a, repeated, through built-in rules, nested, with text).',
         'samples': [x for r in res for x in r['samples']][:5] or ['none'],
         'programs': counts['programs'], 'reference_errors': counts['reference_errors'],
         'exhaustive': True,
